@@ -142,11 +142,14 @@ def run_case(case: dict) -> CaseResult:
             handles[sid]()
             model_unsub(sid, from_cb=True)
 
+    ended: dict[str, str] = {}
+
     def model_unsub(sid, from_cb=False):
         sub = subs.pop(sid, None)
         if sub is None:
             return
         sub["dead"] = True
+        ended[sid] = sub["kind"]
         if sub["kind"] == "va":
             unf = sub.get("unfinished", [])
             if unf and sub.get("latest_unfinished"):
@@ -313,6 +316,13 @@ def run_case(case: dict) -> CaseResult:
                         classes.add("va_unsub_while_start_pending")
                     h()
                     model_unsub(step["id"])
+            elif op == "unsub_again":
+                # the used-up unsubscribe function of an ended subscription is called once more: a no-op
+                # (only for the kinds whose unsubscribe function writes nothing)
+                h = handles.get(step["id"])
+                if h is not None and ended.get(step["id"]) == "connfree":
+                    classes.add("redundant_unsub")
+                    h()
             elif op == "chunk":
                 data = b"".join(sess.dsess.encode(build_msg(m)) for m in step["msgs"])
                 for m in step["msgs"]:
@@ -501,8 +511,12 @@ def _case(draw, tier):
     va_pending_hang = False
     nsteps = draw(st.integers(2, 14))
     i = 0
+    ended_connfree: list[str] = []
     for _ in range(nsteps):
         r = draw(st.integers(0, 9))
+        if r == 9 and ended_connfree:
+            steps.append({"op": "unsub_again", "id": draw(st.sampled_from(ended_connfree))})
+            continue
         if r <= 2 or not live:
             kind = draw(st.sampled_from(KINDS + ["states", "va"]))
             if kind == "states" and n_states >= 2:
@@ -534,6 +548,8 @@ def _case(draw, tier):
             if cands:
                 sid = draw(st.sampled_from(cands))
                 steps.append({"op": "unsub", "id": sid})
+                if live[sid] == "connfree":
+                    ended_connfree.append(sid)
                 del live[sid]
         elif r == 4:
             steps.append({"op": "yield", "d": draw(st.sampled_from([1, 2]))})
@@ -635,4 +651,9 @@ def enumerated(tier):
                       ("rawadv", {"t": "rawadv", "spec": {"advertisements": [{"address": 5, "rssi": -1, "data": {"hex": "0201"}}]}}),
                       ("connfree", {"t": "connfree", "free": 2, "limit": 3})):
         yield {"noise": False, "steps": [{"op": "sub", "id": "s0", "kind": kind}, {"op": "chunk", "msgs": [msg, msg]}, {"op": "unsub", "id": "s0"}, {"op": "chunk", "msgs": [msg]}]}
+    # a used-up unsubscribe function called again must not touch the subscription that replaced it
+    cf = {"t": "connfree", "free": 1, "limit": 3}
+    for noise in (False, True):
+        yield {"noise": noise, "steps": [{"op": "sub", "id": "s0", "kind": "connfree"}, {"op": "chunk", "msgs": [cf]}, {"op": "unsub", "id": "s0"}, {"op": "sub", "id": "s1", "kind": "connfree"},
+                                         {"op": "unsub_again", "id": "s0"}, {"op": "chunk", "msgs": [cf, cf]}, {"op": "unsub_again", "id": "s0"}, {"op": "chunk", "msgs": [cf]}]}
         yield {"noise": True, "steps": [{"op": "sub", "id": "s0", "kind": kind, "unsub_after": 2}, {"op": "chunk", "msgs": [msg, msg, msg, msg]}, {"op": "chunk", "msgs": [msg]}]}
